@@ -121,6 +121,11 @@ def mutations(frame: bytes, rnd: random.Random, cmd: dict, n_random: int, full_f
     out.append(("ext", frame + b"\x00"))
     out.append(("ext", frame + b"\xff\xff"))
     out.append(("ext", frame + frame))
+    # more bytes behind the frame than the frame is long (the statement of C02 puts no bound on trailing bytes)
+    out.append(("ext", frame + frame + b"\x00"))
+    out.append(("ext", frame + frame + frame))
+    out.append(("ext", frame + bytes(rnd.randrange(256) for _ in range(len(frame) + 1 + rnd.randrange(40)))))
+    out.append(("ext", frame + b"\xff" * 300))
     out.append(("lead", b"\x00" + frame))
     out.append(("lead", frame[1:]))
     hdr = 3 if cmd["fr"] == "rtu" else (7 if cmd["fr"] == "tcp" else 4)
